@@ -5,6 +5,9 @@ A *query* is one of
                                         object P on a freshly built database
     ('proc', state, coll, prefix, P)    `aggregate.process_pipeline(docs, db, P, None)` on a fresh db,
                                         docs = the objects `db[coll].aggregate(prefix)` returns
+    ('stagein', state, coll, prefix, P) the same, and what the documents it was HANDED look like
+                                        afterwards (`input`; `input_before` = a deep copy taken
+                                        before the call)
 and its *answer* a JSON-able dict; both sides (python, model) answer in the same notation
 (wire strings), so that the oracles below can be evaluated on either.
 """
@@ -172,6 +175,48 @@ def py_proc(state, coll, prefix, pipeline):
     return {'res': [show(res)]}
 
 
+def py_stagein(state, coll, prefix, pipeline):
+    """the sub-pipeline alone on the output of `prefix`, and its input documents afterwards"""
+    db = build(state)
+    inp = outcome(lambda: db[coll].aggregate(copy.deepcopy(prefix)))
+    if isinstance(inp, Exception):
+        return {'res': [show(inp)]}
+    before = encs(inp)
+    ids = [id(d) for d in inp]
+    res = outcome(lambda: mm_aggregate.process_pipeline(inp, db, copy.deepcopy(pipeline), None))
+    shown = show(res)
+    return {'res': [shown], 'input': encs(inp), 'input_before': before,
+            'input_ids_same': [id(d) for d in inp] == ids}
+
+
+def stagein_line(state, coll, prefix, pipeline):
+    return 'c16 stagein %s %s %s %s' % (coll, encs([state.get(c) or [] for c in COLLS]),
+                                        encs(prefix), encs(pipeline))
+
+
+def parse_stagein(line):
+    """driver answer of `stagein`: res | input"""
+    if line.startswith('?') or line.startswith('!?'):
+        return None
+    parts = [x.strip() for x in line.split('|')]
+    if len(parts) == 1:
+        return {'res': [parts[0]]}
+    return {'res': [parts[0]], 'input': parts[1]}
+
+
+def index_through_unwound(stage):
+    """`$unwind` whose includeArrayIndex is a dotted name that goes through the unwound field
+    itself: `_set_index` then enters the re-attached ORIGINAL element (an object of the stage's
+    input) — outside the heap model, and not judged for input-unchanged"""
+    for op, opts in stage.items():
+        if op == '$unwind' and isinstance(opts, dict):
+            ix, path = opts.get('includeArrayIndex'), opts.get('path')
+            if isinstance(ix, str) and isinstance(path, str) and '.' in ix and \
+                    ix.split('.')[0] == path[1:].split('.')[0]:
+                return True
+    return False
+
+
 def run_line(n, state, coll, pipeline):
     return 'c16 run %d %s %s %s' % (n, coll, encs([state.get(c) or [] for c in COLLS]),
                                     encs(pipeline))
@@ -224,6 +269,11 @@ def reads_of(p, coll):
     return acc
 
 
+def first_op(stage):
+    """the operator of a stage document (None for `{}`)"""
+    return next(iter(stage), None)
+
+
 def out_target(p):
     if p and list(p[-1].keys()) == ['$out']:
         return p[-1]['$out']
@@ -231,9 +281,11 @@ def out_target(p):
 
 
 def has_nested_write(stages):
-    """does a (sub-)pipeline contain a stage that writes into documents it was handed:
-    `$lookup` (doc[as] = …) or `$addFields`/`$set` on a dotted path (descends into the shared
-    sub-document)"""
+    """NAMES the former class a `$facet` difference would belong to: does a (sub-)pipeline contain
+    `$lookup` (writes doc[as] into the document it was handed; harmless only because every
+    sub-pipeline works on its own copy) or `$addFields`/`$set` on a dotted path (which used to
+    descend into the shared sub-document; it copies every level now).  Both classes are repaired:
+    a named difference is a VIOLATION."""
     for st in stages:
         for op, opts in st.items():
             if op == '$lookup':
